@@ -295,6 +295,12 @@ def run_check(mod, prop, tier, seed, replay=None):
                     bad = [a for a in info['axioms'] if a not in ALLOWED_AXIOMS]
                     obligations.append({'name': 'theorem ' + name, 'kind': 'theorem', 'ok': not bad,
                                         'detail': 'axioms=' + ','.join(info['axioms']), 'hash': info['hash']})
+            # thorough: the toolchain's independent re-checker replays the compiled property modules
+            if ctx.thorough and props_ok:
+                for t in targets:
+                    if '.Props.' in t:
+                        rc, out = sh(['lake', 'env', 'leanchecker', t], cwd=LEAN)
+                        obligations.append({'name': 'leanchecker ' + t, 'kind': 'leanchecker', 'ok': rc == 0, 'detail': out[-800:] if rc != 0 else ''})
             # forbidden tokens
             srcs = []
             for d, _, fs in os.walk(os.path.join(LEAN, 'Uds')):
@@ -400,7 +406,7 @@ def write_evidence(prop, tier, seed, mod, obligations, suites, wall, violations,
         'obligations': max(1, len(obligations)),
         'discharged': max(0, sum(1 for o in obligations if o['ok'])),
         'checker_cmd': 'cd lean && lake build %s && lake env lean Audit/%s.lean' % (' '.join(getattr(mod, 'LEAN_TARGETS', [])), prop)
-                       + (' && lake env leanchecker <modules>' if tier == 'thorough' else ''),
+                       + (' && lake env leanchecker %s' % ' '.join(t for t in getattr(mod, 'LEAN_TARGETS', []) if '.Props.' in t) if tier == 'thorough' else ''),
         'trusted_base': TRUSTED_BASE + list(getattr(mod, 'TRUSTED_EXTRA', [])),
         'obligation_list': [{k: o[k] for k in ('name', 'kind', 'ok', 'detail') if k in o} | ({'hash': o['hash']} if 'hash' in o else {})
                             for o in obligations],
